@@ -43,7 +43,9 @@ func u32gen() *rapid.Generator[uint64] {
 }
 
 func addr16(t *rapid.T, label string) []byte {
-	switch rapid.IntRange(0, 3).Draw(t, label+"kind") {
+	switch rapid.IntRange(0, 4).Draw(t, label+"kind") {
+	case 4: // IPv4-mapped (::ffff:a.b.c.d): Go's net.IP treats these 16-byte values as IPv4 in To4()
+		return []byte{0, 0, 0, 0, 0, 0, 0, 0, 0, 0, 0xff, 0xff, 192, 0, 2, byte(rapid.IntRange(0, 255).Draw(t, label+"v4"))}
 	case 0:
 		return make([]byte, 16)
 	case 1:
@@ -55,7 +57,7 @@ func addr16(t *rapid.T, label string) []byte {
 }
 
 func smallBytes(t *rapid.T, label string, max int) []byte {
-	n := rapid.SampledFrom([]int{0, 1, 2, 6, 8, 16, 40}).Draw(t, label+"len")
+	n := rapid.SampledFrom([]int{0, 1, 2, 6, 8, 16, 40, 6, 8, 124, 125, 126, 127, 128, 129, 130, 200}).Draw(t, label+"len")
 	if n > max {
 		n = max
 	}
@@ -64,7 +66,8 @@ func smallBytes(t *rapid.T, label string, max int) []byte {
 
 type v6gen struct {
 	cfg    V6Cfg
-	budget int // remaining option count across the whole tree
+	budget int  // remaining option count across the whole tree
+	deep   bool // a deep relay chain: keep the levels lean so that the datagram stays below 4096 bytes
 }
 
 // V6Msg generates a DHCPv6 message tree (possibly a relay chain).
@@ -77,7 +80,11 @@ func V6Msg(cfg V6Cfg) *rapid.Generator[*refv6.Msg] {
 			if depth > cfg.MaxRelayDepth {
 				depth = cfg.MaxRelayDepth
 			}
+			if cfg.MaxRelayDepth >= 16 && rapid.IntRange(0, 7).Draw(t, "deep") == 0 {
+				depth = rapid.IntRange(9, cfg.MaxRelayDepth).Draw(t, "deepdepth") // every depth up to the bound
+			}
 		}
+		g.deep = depth > 16
 		return g.msg(t, depth, 0)
 	})
 }
@@ -89,6 +96,9 @@ func (g *v6gen) msg(t *rapid.T, relayDepth, nest int) *refv6.Msg {
 		copy(m.Peer[:], addr16(t, "peer"))
 		inner := g.msg(t, relayDepth-1, nest+1)
 		n := rapid.IntRange(0, 3).Draw(t, "nrelayopts")
+		if g.deep {
+			n = 0
+		}
 		pos := rapid.IntRange(0, n).Draw(t, "relaymsgpos")
 		for i := 0; i <= n; i++ {
 			if i == pos {
@@ -103,7 +113,11 @@ func (g *v6gen) msg(t *rapid.T, relayDepth, nest int) *refv6.Msg {
 	typ := rapid.SampledFrom([]uint8{1, 2, 3, 4, 5, 6, 7, 8, 9, 10, 11, 14, 20, 21, 0, 255, 1, 2, 3, 7}).Draw(t, "mtype")
 	m := &refv6.Msg{Type: typ}
 	copy(m.Xid[:], rapid.SliceOfN(rapid.Byte(), 3, 3).Draw(t, "xid"))
-	m.Opts = g.opts(t, nest, g.cfg.MaxOpts, nil)
+	if g.deep {
+		m.Opts = g.opts(t, 0, min(g.cfg.MaxOpts, 4), nil)
+	} else {
+		m.Opts = g.opts(t, nest, g.cfg.MaxOpts, nil)
+	}
 	return m
 }
 
@@ -162,17 +176,17 @@ func (g *v6gen) opt(t *rapid.T, code uint16, nest int) refv6.Opt {
 		switch k {
 		case 1:
 			o.N = append(o.N, uint64(rapid.Uint16().Draw(t, "hw")), u32gen().Draw(t, "time"))
-			o.B = [][]byte{smallBytes(t, "lla", 20)}
+			o.B = [][]byte{smallBytes(t, "lla", 200)}
 		case 2:
 			o.N = append(o.N, u32gen().Draw(t, "ent"))
-			o.B = [][]byte{smallBytes(t, "entid", 40)}
+			o.B = [][]byte{smallBytes(t, "entid", 200)}
 		case 3:
 			o.N = append(o.N, uint64(rapid.Uint16().Draw(t, "hw")))
-			o.B = [][]byte{smallBytes(t, "lla", 20)}
+			o.B = [][]byte{smallBytes(t, "lla", 200)}
 		case 4:
 			o.B = [][]byte{Fill(t, 16, "uuid")}
 		default:
-			o.B = [][]byte{smallBytes(t, "duiddata", 40)}
+			o.B = [][]byte{smallBytes(t, "duiddata", 200)}
 		}
 	case "iana", "iapd":
 		o.B = [][]byte{Fill(t, 4, "iaid")}
@@ -202,7 +216,7 @@ func (g *v6gen) opt(t *rapid.T, code uint16, nest int) refv6.Opt {
 		n := rapid.IntRange(0, 6).Draw(t, "noro")
 		seen := map[uint64]bool{}
 		for i := 0; i < n; i++ {
-			c := uint64(rapid.SampledFrom([]uint16{23, 24, 59, 60, 56, 1, 65535, 0, 39}).Draw(t, "orocode"))
+			c := uint64(rapid.SampledFrom([]uint16{23, 24, 59, 60, 56, 1, 65535, 0, 39, 0x8017, 0x8018, 0x7fff, 0xffff ^ 0x8000, 0x0400, 0x8400, 32768}).Draw(t, "orocode"))
 			if seen[c] && (g.cfg.Canonical || rapid.Bool().Draw(t, "nodup")) {
 				continue
 			}
@@ -287,6 +301,14 @@ func (g *v6gen) opt(t *rapid.T, code uint16, nest int) refv6.Opt {
 	case "clientlla":
 		o.N = []uint64{uint64(rapid.Uint16().Draw(t, "hw"))}
 		o.B = [][]byte{smallBytes(t, "lla", 20)}
+		switch rapid.IntRange(0, 5).Draw(t, "llashape") {
+		case 0: // Ethernet MAC
+			o.N[0] = 1
+			o.B[0] = Fill(t, 6, "mac")
+		case 1: // EUI-64 derived from an EUI-48 (ff:fe in the middle), hardware type 27
+			o.N[0] = 27
+			o.B[0] = []byte{0x00, 0x11, 0x22, 0xff, 0xfe, 0x33, 0x44, byte(rapid.IntRange(0, 255).Draw(t, "eui"))}
+		}
 	case "dhcpv4msg":
 		o.V4 = V4Packet(3, 300).Draw(t, "v4").Ref()
 	case "4rd":
